@@ -4,7 +4,7 @@
 // (first event Open(SOURCE_FILE), last event Close, depth 0, never outside the root in between), token vectors and
 // source untouched.
 fn verif_top<'i>(tokens: Vec<LexToken<'i>>, tokens_raw: Vec<LexToken<'i>>, src: &'i str) -> (p: Parser<'i>)
-    requires forall|i: int| 0 <= i < tokens@.len() ==> is_tok(#[trigger] tokens@[i].kind),
+    requires forall|i: int| 0 <= i < tokens@.len() ==> is_tok(#[trigger] tokens@[i].kind), tokens@.len() + 8 <= usize::MAX,
     ensures p.tokens@ == tokens@, p.tokens_raw@ == tokens_raw@, p.src@ == src@,
         p.pos == tokens@.len(), n_adv(p.events@) == tokens@.len(),
         nested(p.events@), rooted(p.events@), depth(p.events@) == 0,
